@@ -111,6 +111,15 @@ func options(k optKind) *slog.HandlerOptions {
 		return &slog.HandlerOptions{Level: slog.LevelInfo, ReplaceAttr: slogutil.ReplaceLevel}
 	case 5:
 		return &slog.HandlerOptions{AddSource: true, Level: slog.Level(-8)}
+	case 10:
+		// every built-in attribute removed: a record without attributes prints as the empty line, the message
+		// member is then the empty string (and still has to be there)
+		return &slog.HandlerOptions{Level: slog.LevelDebug, ReplaceAttr: func(g []string, a slog.Attr) slog.Attr {
+			if len(g) == 0 && (a.Key == slog.TimeKey || a.Key == slog.LevelKey || a.Key == slog.MessageKey) {
+				return slog.Attr{}
+			}
+			return a
+		}}
 	default:
 		// what slogutil.New documents for Format JSONHybrid: the level, "TRACE" as the name of LevelTrace and
 		// no time attribute unless AddTimestamp - written here independently of golibs' helpers
@@ -130,7 +139,7 @@ func options(k optKind) *slog.HandlerOptions {
 	}
 }
 
-const nOpts = 10
+const nOpts = 11
 
 // viaNew gives the Config of the option sets that are built through slogutil.New.
 func viaNew(k optKind) (lvl slog.Level, addTimestamp bool) {
@@ -140,7 +149,7 @@ func viaNew(k optKind) (lvl slog.Level, addTimestamp bool) {
 // mkHandler builds the handler under test for an option set: directly, or (sets 6..9) the way applications get
 // it, from slogutil.New with Format JSONHybrid.
 func mkHandler(w io.Writer, k optKind) slog.Handler {
-	if k < 6 {
+	if k < 6 || k == 10 {
 		return slogutil.NewJSONHybridHandler(w, options(k))
 	}
 	lvl, ts := viaNew(k)
